@@ -80,6 +80,11 @@ func (c *coalesceOperator) Next(ctx context.Context) ([]model.StepVector, error)
 		c.wg.Add(1)
 		go func(opIdx int, o model.VectorOperator) {
 			defer c.wg.Done()
+			defer func() {
+				if r := recover(); r != nil {
+					errChan <- panicToError(r)
+				}
+			}()
 
 			in, err := o.Next(ctx)
 			if err != nil {
